@@ -319,8 +319,10 @@ class Ctx:
         }
         if self.known_hit:
             ev["coverage"]["known_findings_observed"] = [s for s, _ in self.known_hit]
-        os.makedirs(os.path.join(VERIF, "evidence"), exist_ok=True)
-        with open(os.path.join(VERIF, "evidence", self.prop + ".json"), "w") as f:
+        # runs against another tree (VERIF_REPO, seeded changes) must not overwrite the evidence of /repo
+        evdir = os.path.join(VERIF, "evidence") if self.repo == "/repo" else os.path.join(VERIF, "replays", "alt-evidence")
+        os.makedirs(evdir, exist_ok=True)
+        with open(os.path.join(evdir, self.prop + ".json"), "w") as f:
             json.dump(ev, f, indent=1, sort_keys=True)
         for s, what in self.known_hit:
             print("KNOWN-FINDING: property=%s %s" % (self.prop, what), flush=True)
